@@ -28,6 +28,14 @@ type cwPoint struct {
 	Cycle  int   `json:"cycle"`       // kill/restart cycle of the round
 	Phase  int   `json:"flush_phase"` // number of forced flushes of the cycle that had been requested when the write was sent
 	During bool  `json:"sent_while_a_flush_was_running"`
+	NewSe  bool  `json:"first_point_of_a_new_series,omitempty"` // the write creates a series (tag n=<sequence number>)
+}
+
+func (p cwPoint) tags() map[string]string {
+	if p.NewSe {
+		return map[string]string{"w": strconv.Itoa(p.W), "n": strconv.FormatInt(p.V&0xffffffff, 10)}
+	}
+	return map[string]string{"w": strconv.Itoa(p.W)}
 }
 
 const cwMst = "cw"
@@ -81,7 +89,7 @@ func (rn *runner) concurrentRound(round, worker int) {
 	missingOf := func(cur model.Contents) []cwPoint {
 		var miss []cwPoint
 		for _, p := range acked {
-			k := model.RowKey{Mst: cwMst, Series: model.SeriesKey(map[string]string{"w": strconv.Itoa(p.W)}), T: p.T}
+			k := model.RowKey{Mst: cwMst, Series: model.SeriesKey(p.tags()), T: p.T}
 			row, ok := cur[k]
 			if !ok {
 				miss = append(miss, p)
@@ -110,8 +118,14 @@ func (rn *runner) concurrentRound(round, worker int) {
 				for !stop.Load() && next[w] < 2000000 {
 					i := next[w]
 					next[w]++
-					p := cwPoint{W: w, T: base + i*1000, V: int64(w)<<32 | i, Cycle: cycle, Phase: int(flushes.Load()), During: running.Load()}
-					wr := s.Write(db, fmt.Sprintf("%s,w=%d v=%di %d", cwMst, w, p.V, p.T), nil)
+					// every third write is the first point of a series of its own: its index entry is
+					// created while flushes run, and must be as durable as the row when the row's log is removed
+					p := cwPoint{W: w, T: base + i*1000, V: int64(w)<<32 | i, Cycle: cycle, Phase: int(flushes.Load()), During: running.Load(), NewSe: i%3 == 0}
+					lp := fmt.Sprintf("%s,w=%d v=%di %d", cwMst, w, p.V, p.T)
+					if p.NewSe {
+						lp = fmt.Sprintf("%s,n=%d,w=%d v=%di %d", cwMst, i, w, p.V, p.T)
+					}
+					wr := s.Write(db, lp, nil)
 					switch {
 					case wr.Acked():
 						p.Seq = seq.Add(1)
@@ -195,12 +209,16 @@ func (rn *runner) concurrentRound(round, worker int) {
 	c.Count("concurrent-rounds", 1)
 	c.Count("concurrent-round/acknowledged-writes", int64(len(acked)))
 	c.Count("concurrent-round/forced-flushes", int64(nFlush))
-	during := 0
+	during, newDuring := 0, 0
 	for _, p := range acked {
 		if p.During {
 			during++
+			if p.NewSe {
+				newDuring++
+			}
 		}
 	}
+	c.Count("concurrent-round/new-series-created-while-a-flush-was-running", int64(newDuring))
 	c.Count("concurrent-round/writes-sent-while-a-flush-was-running", int64(during))
 	if during > 0 {
 		c.Nontrivial(fmt.Sprintf("concurrent-writers|kill-after-flush|flushes=%d", nFlush))
@@ -215,6 +233,9 @@ func (rn *runner) concurrentRound(round, worker int) {
 	for _, p := range miss {
 		if p.During {
 			cls = "sent-while-a-forced-flush-was-running"
+			if p.NewSe {
+				cls += "|first-point-of-a-new-series"
+			}
 			break
 		}
 		if p.Phase == 0 {
